@@ -27,6 +27,7 @@ def run(rep, idx, tier):
     rep.require("C01.8", 3)
     decoding_components(rep, idx)
     wrappers(rep, idx)
+    bridge_registers(rep, idx)
     bridge(rep, idx)
     setters(rep, idx)
     forwarded_bits(rep, idx)
@@ -110,6 +111,25 @@ def wrappers(rep, idx):
                   f"no connect(m, self.{port}, {ir.show(want_inner_bus)}) (in either orientation)")
         subs = [c.norm(v) for _, v, _, _ in c.t.submodules]
         rep.check(inner in subs, "C01.3", site, f"{spec}: that component is a submodule", f"submodules: {[ir.show(s) for s in subs][:5]}")
+
+
+def bridge_registers(rep, idx):
+    """csr.Bridge: every register the published map lists is elaborated -- a submodule per resource, unconditionally."""
+    c = get_ctx(idx, "csr/reg:Bridge.elaborate")
+    site = c.fi.site
+    rep.analysed(site)
+    if not require_supported(rep, "C01.3", c):
+        return
+    loops = [L for L in c.t.loops.values() if c.norm(L.iter) == c.parse("self.bus.memory_map.resources()")]
+    if len(loops) != 1:
+        rep.unk("C01.3", site, "csr.Bridge: loop over the resources of the published map", f"found {len(loops)} such loops")
+        return
+    L = loops[0]
+    reg = ('item', L.id, (0,))
+    hits = [(v, gen) for _, v, gen, _ in c.t.submodules if c.norm(v) == reg]
+    ok = any(tuple(fr for fr in gen) == (('for', L.id),) for v, gen in hits)
+    rep.check(ok, "C01.3", site, "csr.Bridge: every register of the published map is a submodule, unconditionally",
+              f"submodule registrations of the loop element: {[[ir.show(fr[1]) if fr[0] == 'pyif' else fr for fr in gen] for v, gen in hits]}")
 
 
 # ---- C01.4 ---------------------------------------------------------------------------------------------
